@@ -750,7 +750,7 @@ func c02GoChunkSize(want int64) int {
 // is the second opinion (theorem databuffer_fifo says the model IS that FIFO).
 func TestVerif_C02_h2databuf(t *testing.T) {
 	s := verifh.New(t, "C02", "h2databuf",
-		"Write(n)/Read(k) scripts on a real dataBuffer with expected in {-1,0,1,1000,5000,20000,100000}, position-dependent bytes: write sizes 0..40000 around the 1/2/4/8/16 KiB chunk classes or aimed at the geometry (fill the last chunk exactly / +-1); read sizes random 1..70000 or aimed at the geometry (what is left of the first chunk +-1, the offset in the first chunk that equals the write offset of the last chunk +-1, everything, everything-1); compared op by op (read length + content hash, Len() after every op, chunk lengths at the end) with Req.C02.DataBuffer under Go's size-class allocator; oracle: an independent byte FIFO; non-trivial = at least two chunks were buffered at once")
+		"Write(n)/Read(k) scripts on a real dataBuffer with expected in {-1,0,1,1000,5000,20000,100000}, position-dependent bytes: write sizes 0..40000 around the 1/2/4/8/16 KiB chunk classes or aimed at the geometry (fill the last chunk exactly / +-1); read sizes random 1..70000 or aimed at the geometry (what is left of the first chunk +-1, the offset in the first chunk that equals the write offset of the last chunk +-1, everything, everything-1); compared op by op (read length + content hash, Len() after every op) with Req.C02.DataBuffer under Go's size-class allocator (the chunk lengths at the end are recorded in the histogram, not judged: the allocation policy is invisible to the caller); oracle: an independent byte FIFO; non-trivial = at least two chunks were buffered at once")
 	r := s.Rand()
 	n := verifh.N(500, 20000)
 	sizes := []int{0, 1, 2, 100, 1023, 1024, 1025, 2047, 2048, 2049, 4095, 4096, 4097, 8191, 8192, 8193, 16383, 16384, 16385, 40000}
@@ -971,11 +971,27 @@ func TestVerif_C02_h2databuf(t *testing.T) {
 		if aimed {
 			count("read-stops-at-r==w-of-last-chunk")
 		}
+		// The chunk geometry is NOT part of the compared answer: which size class a chunk
+		// comes from is invisible to the caller (theorem databuffer_alloc_invisible), so a
+		// different allocation policy must not alarm. It is only recorded whether the real
+		// chunk list has the lengths Go's size classes (the model's goAlloc) predict.
 		g := "0"
 		if res.seen {
-			g = "1"
-			count("geometry-compared")
+			var ls []string
+			for _, l := range lens {
+				ls = append(ls, strconv.Itoa(l))
+			}
+			pred := "-"
+			if len(ls) > 0 {
+				pred = strings.Join(ls, ",")
+			}
+			if pred == res.geo {
+				count("geometry:as-size-classes-predict")
+			} else {
+				count("geometry:differs-from-size-classes")
+			}
 		}
+		res.geo = "?"
 		opsS := "-"
 		if len(trace) > 0 {
 			opsS = strings.Join(trace, ",")
